@@ -16,7 +16,7 @@ INFO = dict(
         "files of 0..10 bytes are rejected (pe.find_mz_offset cut to None, justified by per-(size, offset) lemma obligations of the same check; uncut for 0/5/7 bytes)",
         thorough="plaintext lengths {0..9, 11, 13}, stubs 0/7, all op sequences of length <=2, length 3 on two plaintext/stub combinations, selection of length 4",
     ),
-    outside="stages in which the size relation or the ff ff ff marker also holds at an offset BEFORE the true one (ambiguous by construction: the self-synchronising decoding makes such a candidate pass the MZ validation; candidates after the true offset are inside the claim; "
+    outside="stages in which the size relation or the ff ff ff marker also holds at an offset BEFORE the true one while the true offset is NOT designated by both hints (ambiguous by construction: the self-synchronising decoding makes such a candidate pass the MZ validation; candidates after the true offset are inside the claim; "
     "stated validity predicate of the detection harness); plaintexts longer than the bound; seeking before the first plaintext byte (undefined for the view); writes; "
     "detection on stages whose decoded content does not start with a PE image within 1024 bytes",
     stubs=["io.BytesIO -> pure model", "dissect.cstruct readers -> generated source interpreted, leaves modelled"],
@@ -97,7 +97,7 @@ def scaffold(machine_cells, lfanew=64, extra=0, fill=0x11):
     return dos + gap + [0x50, 0x45, 0, 0] + filehdr + [fill] * extra
 
 
-def h_detect(stublen, marker, good_size, mach, nonce_fixed=None, maxrange=None):
+def h_detect(stublen, marker, good_size, mach, nonce_fixed=None, maxrange=None, stray=None):
     """nonce_fixed: None = fully symbolic nonce with the strong validity predicate (single candidate offset);
     a 4-list with None entries for symbolic bytes = crafted stage with stray candidates AFTER the true offset
     (e.g. a nonce beginning ff ff ff), for which only candidates before the true offset are excluded"""
@@ -112,6 +112,11 @@ def h_detect(stublen, marker, good_size, mach, nonce_fixed=None, maxrange=None):
         plain = SymBytes(scaffold(m.cells))
         if marker:
             stubc = [0x90] * (stublen - 3) + [0xFF, 0xFF, 0xFF]
+            if stray is not None:
+                # a second ff ff ff (e.g. the displacement of an earlier call instruction) in front of the real end-of-stub marker;
+                # the true offset is designated by marker AND size field, the stray one by a marker alone
+                assert good_size and stray + 3 < stublen - 3
+                stubc[stray:stray + 3] = [0xFF, 0xFF, 0xFF]
         else:
             stubc = [0x90] * stublen
         stub = SymBytes(stubc)
@@ -132,7 +137,7 @@ def h_detect(stublen, marker, good_size, mach, nonce_fixed=None, maxrange=None):
                 dec = binop("+", dec, binop("*", SymInt.from_byte(x.as_long() if z3.is_bv_value(x) else x), 1 << (8 * j)))
             ctx.assume(compare("!=", binop("+", dec, i + 8), R))
         for i in range(0, (R - 2) if strict else min(stublen, R - 2)):
-            if marker and i == stublen - 3:
+            if marker and (i == stublen - 3 or i == stray):
                 continue
             m = rawb.match_at([0xFF, 0xFF, 0xFF], i)
             ctx.assume(mkbool(z3.Not(m.e)) if isinstance(m, SymBool) else (not m))
@@ -219,6 +224,9 @@ def instances(tier):
                                 dict(kind="detect", stub=stublen, marker=marker, size_ok=good, machine=mach, cost=10 ** 6),
                                 split=6, max_loop=3000))
     # crafted stray candidates after the true offset (they fail the MZ validation and must be skipped, not end the search)
+    for stl, st in (((12, 2),) if q else ((12, 2), (9, 1), (41, 5))):
+        out.append(Instance("detect stub=%d marker+size, stray marker at %d" % (stl, st), h_detect(stl, True, True, "x64", stray=st),
+                            dict(kind="detect_stray_before", stub=stl, stray_marker_at=st, cost=10 ** 6), split=6, max_loop=3000))
     for stublen, marker, good, nf in ((0, False, True, [0xFF, 0xFF, 0xFF, None]), (4, False, True, [0xFF, 0xFF, 0xFF, None]),
                                       (5, True, False, [None, 0xFF, 0xFF, 0xFF]), (4, False, True, [0x6F, 0x6F, 0x6F, None])):
         out.append(Instance("detect stub=%d marker=%s size=%s stray-after nonce=%s" % (stublen, marker, good, nf),
